@@ -41,7 +41,9 @@ def tls_alpn_name(kind, value):
 
 def run_case(case):
     idents = case['identifiers']          # list of (config entry, (kind, normalised value), challenge)
-    cfg_by_norm = {(k, v): ch for _, (k, v), ch in idents}
+    def nk(kind, v):
+        return (kind, ipaddress.ip_address(v).packed.hex()) if kind == 'ip' else (kind, v)
+    cfg_by_norm = {nk(k, v): ch for _, (k, v), ch in idents}
     ca_cfg = {'lifetimes_s': [100, LONG], 'chain_lens': [1], 'shuffle_seed': case['shuffle_seed'], 'seed': case['shuffle_seed'] + 1,
               'token_len': case['token_len'], 'authz_pending_polls': case['polls']}
     if case.get('types_by_id'):
@@ -117,7 +119,7 @@ def run_case(case):
                     pb.append(('variables', '%s hook for %s: %s is %r, expected %r' % (ctype, a['identifier'], var, kv.get(var), ev[var])))
             cfg_name = ('*.' + a['identifier']) if a.get('wildcard') else a['identifier']
             kind = a.get('identifier_type', 'dns')
-            want_type = cfg_by_norm.get((kind, cfg_name))
+            want_type = cfg_by_norm.get(nk(kind, cfg_name))
             if want_type is None:
                 pb.append(('unknown-identifier', 'authorization for %s has no configured identifier' % cfg_name))
             elif ctype != want_type:
@@ -140,7 +142,7 @@ def run_case(case):
             hs = [h for h in hooks_by_authz.get(ch['authz'], []) if h['kv'].get('challenge') == ch['type']]
             a = authz.get(ch['authz'], {})
             cfg_name = ('*.' + ch['identifier']) if ch.get('wildcard') else ch['identifier']
-            want_type = cfg_by_norm.get((a.get('identifier_type', 'dns'), cfg_name))
+            want_type = cfg_by_norm.get(nk(a.get('identifier_type', 'dns'), cfg_name))
             if want_type and ch['type'] != want_type:
                 pb.append(('challenge-type', 'the daemon told the CA that the %s challenge of %s%s is ready, the configuration says %s' % (
                     ch['type'], ch['identifier'], ' (wildcard)' if ch.get('wildcard') else '', want_type)))
@@ -189,7 +191,8 @@ def gen(tier, r):
         elif shape == 3:     # IDN / mixed case and IPv6
             add_dns(T.gen_domain(r, 'idn') + '.' + base, r.choice(chal))
             add_dns('MiXeD.' + base, r.choice(chal))
-            add_ip('2001:db8::%x' % (i + 1), 'tls-alpn-01')
+            # IPv6 in general and the IPv4-mapped range, whose reverse name is still an ip6.arpa one
+            add_ip(r.choice(['2001:db8::%x' % (i + 1), '::ffff:192.0.2.%d' % (i % 200 + 1), '::ffff:c000:2%02x' % (i % 200)]), 'tls-alpn-01')
         elif shape == 4:     # only a wildcard / wildcard of a sub-domain together with the parent name
             add_dns('*.' + base, 'dns-01')
             if r.random() < 0.5:
@@ -211,7 +214,7 @@ def gen(tier, r):
             case['status_by_id'] = {v: r.choice(['valid', 'valid', 'invalid', 'deactivated', 'expired', 'revoked'])}
         elif k == 7:
             case['fail_at'] = r.randint(0, max(0, len(idents) - 1))
-            case['fail_code'] = r.choice([1, 2, 255])
+            case['fail_code'] = r.choice([1, 2, 255, 'signal', 'signal'])
         elif k == 8:
             # the configured type is not offered at all for one identifier
             e, (kind, v), ch = r.choice(idents)
